@@ -258,6 +258,18 @@ CopyOps ==
    [a |-> "Merge", s |-> 1, t |-> 2],
    [a |-> "Enter", s |-> 1], [a |-> "Exit", s |-> 1]}
 FullOps ==
+  IF FullSet = "mid" THEN
+     BoundOps \cup {
+        [a |-> "RxnAddMetabolites", s |-> 1, r |-> "r1", d |-> D1("m2", 1), combine |-> TRUE, form |-> 0],
+        [a |-> "RxnAddMetabolites", s |-> 1, r |-> "r1", d |-> D1("m1", -2), combine |-> FALSE, form |-> 2],
+        [a |-> "RemoveReactions", s |-> 1, rs |-> <<"r1">>, orphans |-> TRUE, form |-> 0],
+        [a |-> "ReAddDetached", s |-> 1, r |-> "r1"],
+        [a |-> "AddReactions", s |-> 1, shape |-> 2, specs |-> <<Spec("r4", St1("m1", -1, "m4", 2), -5, 5, And2(G("g1"), G("g4")))>>],
+        [a |-> "RemoveMetabolites", s |-> 1, ms |-> <<"m1">>, destructive |-> FALSE, form |-> 0],
+        [a |-> "RemoveGenes", s |-> 1, gs |-> <<"g1">>, rr |-> FALSE, form |-> 0],
+        [a |-> "SetRule", s |-> 1, r |-> "r1", rule |-> Or2(G("g2"), G("g4")), form |-> 0],
+        [a |-> "RxnIAdd", s |-> 1, r |-> "r1", q |-> "r1"],
+        [a |-> "SetObjective", s |-> 1, form |-> 0, d |-> [x \in RxU |-> IF x = "r2" THEN 1 ELSE 0]]} ELSE
   IF FullSet = "copy" THEN CopyOps ELSE
   IF FullSet = "io" THEN IoOps ELSE
   IF FullSet = "bounds" THEN BoundOps ELSE
